@@ -1197,7 +1197,12 @@ func (s *Server) cleanupExpiredLeases() {
 
 	s.leasesMu.Lock()
 	for _, mac := range expired {
-		lease := s.leases[mac]
+		// The lease may have been released, declined or renewed by a packet
+		// handler since the scan above dropped the read lock
+		lease, exists := s.leases[mac]
+		if !exists || !now.After(lease.ExpiresAt) {
+			continue
+		}
 		delete(s.leases, mac)
 
 		// Remove from circuit-ID secondary index
